@@ -428,6 +428,13 @@ func (z *Z) list(l List, extraOK bool, avoidMarker byte) []ln {
 		}
 		w := len(marker) + gap
 		inner := z.blocks(it, l.Tight, false, mk)
+		if f, ok := it[len(it)-1].(FCode); ok && l.Tight && i < len(l.Items)-1 && len(inner) >= 2 && coin(z.s, 1, 3) {
+			// a fenced block that is the last block of an item may stay unclosed: it ends with the item. Its blank
+			// content lines are content, not separators between the items (the list stays tight)
+			_ = f
+			inner = inner[:len(inner)-1]
+			z.note("fence-unclosed-at-item-end")
+		}
 		emptyFirst := false
 		if _, isCode := it[0].(ICode); i > 0 && !isCode && coin(z.s, 1, 6) {
 			// an item may begin with one blank line: the marker stands alone and the content starts on the next
